@@ -80,8 +80,39 @@ def witness(ctx):
         st.close()
 
 
+def unterminated_unlink(ctx, r):
+    """an edge was removed and the removal is the log's last line, complete but without its newline; the opposite edge is then asked for. The cycle
+    check reads the removal — so must whatever is written next: if the writer drops that line, both directions are in the log and nothing is ready"""
+    st = cmdrun.Store(ctx.ergo, ctx.go, legacy=r.p(20))
+    trace = []
+    try:
+        def ex(argv, stdin=None):
+            res = st.exec(argv, stdin); trace.append({"argv": argv, "stdin": None if stdin is None else stdin.decode(), "exit": res["exit"]}); return res
+        ids = [json.loads(ex(["--json", "new", "task"], json.dumps({"title": "t%d" % i}).encode())["stdout"])["id"] for i in range(2 + r.n(3))]
+        a, b = ids[0], ids[1]
+        ex(["--json", "sequence", a, b])
+        for x in ids[2:]:
+            ex(["--json", "sequence", b, x])
+        ex(["--json", "sequence", "rm", a, b])
+        data = st.log_bytes()
+        if data.endswith(b"\n"):
+            open(st.log_path(), "wb").write(data[:-1])
+            trace.append({"edit": "final newline of the log removed (the last line, the unlink event, is complete)"})
+        ex(["--json", "sequence", b, a])
+        ctx.count(1, key=("unterminated-unlink", len(ids)))
+        g = st.graph()
+        if "err" in g:
+            ctx.violation("C15 store unreadable", g["err"][:200], {"trace": trace}); return
+        oracle(ctx, st, {"cmd": "sequence"}, "", {"post": g}, trace)
+    finally:
+        st.close()
+
+
 def run(ctx):
     witness(ctx)
+    rr = gen.Rng(ctx.seed * 1000003 + 1515)
+    for i in range(3 if ctx.quick else 30):
+        unterminated_unlink(ctx, rr.fork())
     # progress also depends on what `set`/`new` record: a todo task that ends up carrying a claimant is never ready and is not "held" either.
     # The exhaustive decision table of buildSetEvents against the model, and every disagreement run on the real binary under this property's oracle
     res = fndiff.run_stream(ctx.ev, ["fn-setev"])
